@@ -13,6 +13,7 @@ macro_rules! cfg {
 fn main() {
     let mut run = Run::from_args("C17", "c17");
     let r = &mut run;
+    cfg!(r, d8, 1, i128);
     cfg!(r, d8, 3, i128);
     cfg!(r, d16, 1, i128);
     cfg!(r, d32, 3, BigRef);
